@@ -19,6 +19,7 @@ import (
 	"testing/synctest"
 	"time"
 
+	"github.com/jech/storrent/bitmap"
 	"github.com/jech/storrent/config"
 	"github.com/jech/storrent/hash"
 	"github.com/jech/storrent/httpclient"
@@ -26,6 +27,7 @@ import (
 	"github.com/jech/storrent/peer"
 	"github.com/jech/storrent/protocol"
 	"github.com/jech/storrent/tor"
+	"github.com/jech/storrent/tor/piece"
 
 	"verif/gen"
 	"verif/ref"
@@ -503,6 +505,9 @@ func (r *Remote) SendExt(ext map[string]uint8, reqq *uint32, metadataSize *uint3
 }
 
 func (r *Remote) Close() {
+	r.mu.Lock()
+	r.paused = false
+	r.mu.Unlock()
 	r.conn.Close()
 	select {
 	case r.unpause <- struct{}{}:
@@ -512,3 +517,76 @@ func (r *Remote) Close() {
 
 // WaitClosed blocks until the remote's reader has seen the end of the stream.
 func (r *Remote) WaitClosed() { <-r.done }
+
+// ------------------------------------------------------------------ peer actor
+
+// Actor is one real peer.Run over a pipe, with the harness playing both the
+// remote peer (R) and the torrent (TorEvent, commands through P.Event).
+type Actor struct {
+	P        *peer.Peer
+	PS       *piece.Pieces
+	R        *Remote
+	TorEvent chan peer.TorEvent
+	TorDone  chan struct{}
+	Exited   chan struct{}
+}
+
+// NewActor starts peer.Run.  info == nil means "metadata not known yet".
+func NewActor(ps *piece.Pieces, local bitmap.Bitmap, caps Caps, info []byte, proxy string, incoming bool) *Actor {
+	Init()
+	a, b := net.Pipe()
+	id := make([]byte, 20)
+	copy(id, "-VF0001-actor-remote")
+	addr := netip.AddrPortFrom(netip.AddrFrom4([4]byte{8, 8, 4, 4}), 20000)
+	res := protocol.HandshakeResult{Hash: hash.Hash(make([]byte, 20)), Id: hash.Hash(id), Dht: caps.DHT, Fast: caps.Fast, Extended: caps.Extended}
+	p := peer.New(proxy, a, addr, incoming, res)
+	p.Pieces = ps
+	p.Log.SetOutput(discard{})
+	ac := &Actor{P: p, PS: ps, TorEvent: make(chan peer.TorEvent, 1<<16), TorDone: make(chan struct{}), Exited: make(chan struct{})}
+	ac.R = Attach(b, caps)
+	go func() {
+		defer close(ac.Exited)
+		peer.Run(p, ac.TorEvent, ac.TorDone, info, local, nil)
+	}()
+	Cleanup(func() {
+		select {
+		case <-ac.TorDone:
+		default:
+			close(ac.TorDone)
+		}
+		ac.R.Close()
+	})
+	return ac
+}
+
+// Events drains what the peer told the torrent.
+func (a *Actor) Events() []peer.TorEvent {
+	var l []peer.TorEvent
+	for {
+		select {
+		case e := <-a.TorEvent:
+			l = append(l, e)
+		default:
+			return l
+		}
+	}
+}
+
+// Cmd delivers a torrent command the way tor.writePeer does.
+func (a *Actor) Cmd(e peer.PeerEvent) bool {
+	select {
+	case a.P.Event <- e:
+		return true
+	case <-a.P.Done:
+		return false
+	}
+}
+
+func (a *Actor) Alive() bool {
+	select {
+	case <-a.Exited:
+		return false
+	default:
+		return true
+	}
+}
